@@ -110,3 +110,45 @@ pub unsafe extern "C" fn getrandom(buf: *mut libc::c_void, len: libc::size_t, fl
     }
     unsafe { libc::syscall(libc::SYS_getrandom, buf, len, flags) as libc::ssize_t }
 }
+
+// ---- sleeping: a simulated thread that asks the OS to sleep is blocked in SIMULATED time
+
+fn ts_ns(ts: *const libc::timespec) -> Option<u64> {
+    if ts.is_null() {
+        return None;
+    }
+    let (s, n) = unsafe { ((*ts).tv_sec, (*ts).tv_nsec) };
+    if s < 0 || n < 0 {
+        return None;
+    }
+    Some((s as u64).saturating_mul(1_000_000_000).saturating_add(n as u64))
+}
+
+#[unsafe(no_mangle)]
+pub unsafe extern "C" fn nanosleep(req: *const libc::timespec, rem: *mut libc::timespec) -> libc::c_int {
+    if let Some(ns) = ts_ns(req) {
+        if crate::sched::note_blocking_sleep(ns) {
+            return 0;
+        }
+    }
+    unsafe { libc::syscall(libc::SYS_nanosleep, req, rem) as libc::c_int }
+}
+
+#[unsafe(no_mangle)]
+pub unsafe extern "C" fn clock_nanosleep(clk: libc::clockid_t, flags: libc::c_int, req: *const libc::timespec, rem: *mut libc::timespec) -> libc::c_int {
+    if let Some(mut ns) = ts_ns(req) {
+        if flags & libc::TIMER_ABSTIME != 0 {
+            // absolute deadline on a real clock: the remaining time is what the caller wants to sleep
+            let mut now = libc::timespec { tv_sec: 0, tv_nsec: 0 };
+            unsafe { libc::syscall(libc::SYS_clock_gettime, clk, &mut now) };
+            let n = (now.tv_sec as u64).saturating_mul(1_000_000_000).saturating_add(now.tv_nsec as u64);
+            ns = ns.saturating_sub(n);
+        }
+        if crate::sched::note_blocking_sleep(ns) {
+            return 0;
+        }
+    }
+    // clock_nanosleep returns the error number itself
+    let r = unsafe { libc::syscall(libc::SYS_clock_nanosleep, clk, flags, req, rem) };
+    if r == -1 { unsafe { *libc::__errno_location() } } else { 0 }
+}
